@@ -5,8 +5,11 @@
       mode 0: global alignment of xs, ys     -> [score; path; row1; row2]
       mode 1: local alignment of xs, ys      -> [score; path; row1; row2; i; j]
       mode 2: xs, ys are gapped ROWS: global score of the path they spell (the specification's score function)
-      mode 3: the same for local rows (score over the residues the rows contain) *)
-From CG3 Require Import Lib.PyZ Lib.Val Lib.MaxPlus Model.PairAlign Spec.AlignSpec.
+      mode 3: the same for local rows (score over the residues the rows contain)
+      mode 4: the middle row of the Hirschberg divide step at k = len(xs) // 2:
+              [forward + backward] for j = 0..len(ys), state = BEGIN, X, Y, M (flattened)
+      mode 5: the whole linear-space recursion ([hirsch_align]) -> [score; path; row1; row2] *)
+From CG3 Require Import Lib.PyZ Lib.Val Lib.MaxPlus Model.PairAlign Spec.AlignSpec Model.Hirschberg.
 
 Definition st_index (s : st) : nat := match s with SB => 0 | SX => 1 | SY => 2 | SM => 3 end.
 
@@ -39,5 +42,11 @@ Definition run_case (c : pcase) : val :=
     VL [voptZ v; vpath p; vlistZ r1; vlistZ r2; VZ i; VZ j]
   else if mode =? 2 then
     VL [voptZ (gscore P (rev (path_of_rows xs ys)) (rev (degap xs)) (rev (degap ys)))]
+  else if mode =? 4 then
+    VL (map voptZ (middle P xs ys (Nat.div (length xs) 2)))
+  else if mode =? 5 then
+    let '(v, p) := hirsch_align P xs ys in
+    let '(r1, r2) := rows_of p xs ys in
+    VL [voptZ v; vpath p; vlistZ r1; vlistZ r2]
   else
     VL [voptZ (rscore P true (rev (path_of_rows xs ys)) (rev (degap xs)) (rev (degap ys)))].
